@@ -26,7 +26,7 @@ inductive V where
   | bool (b : Bool)
   | int (i : Int)
   | str (s : String)
-  | ints (xs : List Int)
+  | ints (xs : List (Option Int))   -- a list of ints and Nones (the scanner's `these`)
   | strs (xs : List String)
   | exc (name : String)
   deriving Repr, DecidableEq, Inhabited
@@ -145,11 +145,17 @@ def isInfix (xs ys : List Char) : Bool :=
   | [] => xs.isEmpty
   | y :: ys' => xs.isPrefixOf (y :: ys') || isInfix xs ys'
 
+/-- `a == x` for a member of an `ints` list -/
+def eqOpt (a : V) (x : Option Int) : Bool :=
+  match x with
+  | some i => eqb a (.int i)
+  | Option.none => eqb a .none
+
 /-- `a in b` -/
 def in_ (a b : V) : V :=
   strict2 a b fun a b =>
     match b with
-    | .ints xs => .bool (xs.any fun x => eqb a (.int x))
+    | .ints xs => .bool (xs.any (eqOpt a))
     | .strs xs => .bool (xs.any fun x => eqb a (.str x))
     | .str s =>
       match a with
@@ -167,28 +173,44 @@ def len (a : V) : V :=
   | .strs xs => .int xs.length
   | _ => .exc "TypeError"
 
-def maxInts : List Int → Option Int
-  | [] => Option.none
-  | x :: xs => some (xs.foldl (fun m y => if y > m then y else m) x)
+/-- the ints of a list without Nones -/
+def allInts : List (Option Int) → Option (List Int)
+  | [] => some []
+  | some i :: xs => (allInts xs).map (i :: ·)
+  | Option.none :: _ => Option.none
 
-def minInts : List Int → Option Int
+def maxList : List Int → Option Int
   | [] => Option.none
-  | x :: xs => some (xs.foldl (fun m y => if y < m then y else m) x)
+  | x :: xs => match maxList xs with
+    | Option.none => some x
+    | some m => some (if x > m then x else m)
 
+def minList : List Int → Option Int
+  | [] => Option.none
+  | x :: xs => match minList xs with
+    | Option.none => some x
+    | some m => some (if x < m then x else m)
+
+/-- `max(xs)`: ValueError on the empty list, the element itself for a one-element list (even None), TypeError as soon
+    as None meets an int -/
 def max (a : V) : V :=
   match a with
   | .exc n => .exc n
-  | .ints xs => match maxInts xs with
+  | .ints [] => .exc "ValueError"
+  | .ints [Option.none] => .none
+  | .ints xs => match (allInts xs).bind maxList with
     | some m => .int m
-    | Option.none => .exc "ValueError"
+    | Option.none => .exc "TypeError"
   | _ => .exc "TypeError"
 
 def min (a : V) : V :=
   match a with
   | .exc n => .exc n
-  | .ints xs => match minInts xs with
+  | .ints [] => .exc "ValueError"
+  | .ints [Option.none] => .none
+  | .ints xs => match (allInts xs).bind minList with
     | some m => .int m
-    | Option.none => .exc "ValueError"
+    | Option.none => .exc "TypeError"
   | _ => .exc "TypeError"
 
 def add (a b : V) : V :=
